@@ -118,6 +118,14 @@ Next ==
                        ELSE
                          /\ (IF e.has_sauce = 1
                              THEN /\ CheckFields(1, e.writer, v, e.in, e.out, l)
+                                  \* the texts as a client reads them (to_string: CP437 -> Unicode, mapped back to codes by the driver; a code
+                                  \* without a CP437 glyph comes back as -1) are the texts that were written
+                                  /\ (IF Has(e, "out_text")
+                                      THEN /\ Check("title" \notin Carried(v) \/ TextEq(e.out_text.title, e.in.title), "C11", "Meta", l, [field |-> "title-as-text", writer |-> e.writer, variant |-> v])
+                                           /\ Check("author" \notin Carried(v) \/ TextEq(e.out_text.author, e.in.author), "C11", "Meta", l, [field |-> "author-as-text", writer |-> e.writer, variant |-> v])
+                                           /\ Check("group" \notin Carried(v) \/ TextEq(e.out_text.group, e.in.group), "C11", "Meta", l, [field |-> "group-as-text", writer |-> e.writer, variant |-> v])
+                                           /\ Check("comments" \notin Carried(v) \/ CommentsEq(e.out_text.comments, e.in.comments), "C11", "Meta", l, [field |-> "comments-as-text", writer |-> e.writer, variant |-> v])
+                                      ELSE TRUE)
                                   \* the buffer width carried by the record is also the width of the loaded buffer
                                   /\ Check(WidthCarried(v, e.in.width) => e.buf_width = e.in.width, "C11", "Meta", l, [field |-> "bufwidth", writer |-> e.writer, variant |-> v])
                                   \* a font name the record carries and that names one of the engine's SAUCE fonts is the font of the loaded
